@@ -1,8 +1,144 @@
 import NaijaVerif.Driver.Util
-/-! Family `run` — stub (replaced by the unit that owns this family). -/
+import NaijaVerif.Driver.AstIO
+import NaijaVerif.Driver.FloatOps
+import NaijaVerif.Model.Eval
+import NaijaVerif.Gen.PanicSites
+/-!
+Family `run` — the evaluator model driven by the REAL front end's annotated AST.
+
+```
+run <hex src> pol=<a|d> plan=<s1,s2,…|->;<f1,f2,…|-> | plan=none   ast=<annotated AST line>
+      -> out=<hex of Display text per printed value, comma separated | none> end=<ok | rt:<Kind>@<lo>:<hi> | panic@<file>:<line> | fuel>
+rej <hex src>                 -> rejected
+fmt <bits: 16 hex digits>     -> <hex of the Display text>          (validation of the driver's float routines)
+parse <hex text>              -> <bits> | nan | err
+fmod <bits> <bits>            -> <bits> | nan
+cast <bits>                   -> <as isize> <as usize> <as u32>
+un <floor|ceil|round|sqrt|abs> <bits> -> <bits> | nan
+```
+`pol=a`: process execution allowed (only `/bin/true`, `/bin/false`, `echo` are known to the model's
+`runProc`); `pol=d`: denied.  The model runs with `lookup := dynamic` (an extra head field
+`lookup=lexical` selects the lexical reference mode), the given plan, `panics := true`.
+-/
 namespace NaijaVerif.Driver.RunD
+open NaijaVerif NaijaVerif.Driver NaijaVerif.Eval NaijaVerif.Driver.FloatOps
+
+def hex16 (n : Nat) : String :=
+  String.ofList ((List.range 16).reverse.map (fun i => hexChar (n / 16 ^ i % 16)))
+
+def parseHexNat (s : String) : Option Nat :=
+  s.toList.foldl (fun acc c => match acc, hexDigit c with
+    | some a, some d => some (a * 16 + d)
+    | _, _ => none) (some 0)
+
+def bitsAns (b : Nat) : String := if isNaNBits b then "nan" else hex16 b
+
+/-- The process runner of the model: the two programs the product stream uses. -/
+def runProcStub (spec : Proc.Spec) : Except RtKind ProcResult :=
+  let cap (p : Proc.OutPol) : Option Bytes := match p with | .capture => some [] | _ => none
+  if spec.program == b!"/bin/true" then
+    .ok { success := true, exitCode := some 0, stdout := cap spec.stdout, stderr := cap spec.stderr }
+  else if spec.program == b!"/bin/false" then
+    .ok { success := false, exitCode := some 1, stdout := cap spec.stdout, stderr := cap spec.stderr }
+  else if spec.program == b!"echo" then
+    -- `echo a b` prints its arguments separated by blanks and a newline
+    let text : Bytes := (spec.args.intersperse [32]).flatten ++ [10]
+    .ok { success := true, exitCode := some 0,
+          stdout := (match spec.stdout with | .capture => some text | _ => none), stderr := cap spec.stderr }
+  else .error .processSpawnFailed
+
+def stdOps : StdOps := { trim := Strs.trim, upper := Strs.toUpper, lower := Strs.toLower }
+
+/-- `ProcessCaps::defaults()`. -/
+def defaultCaps : Proc.Caps :=
+  { maxProgram := 4096, maxCwd := 4096, maxArgs := 256, maxArg := 65536, maxTotalArg := 262144,
+    maxEnvPairs := 128, maxEnvKey := 256, maxEnvValue := 16384, maxTotalEnv := 131072,
+    maxStdin := 1048576, maxCapture := 1048576, defaultTimeout := 900000, maxTimeout := 3600000,
+    waitPoll := 10 }
+
+def parseIds (s : String) : Option (List Nat) :=
+  if s = "-" then some [] else (s.splitOn ",").mapM (·.toNat?)
+
+def parsePlan (s : String) : Option (Option Plan) :=
+  if s = "none" then some none else
+  match s.splitOn ";" with
+  | [a, b] => do
+    let ss ← parseIds a
+    let fs ← parseIds b
+    pure (some { stmts := ss, fns := fs })
+  | _ => none
+
+def fuel : Nat := 100000
+
+def siteLoc (site : PanicSite) : String :=
+  match Gen.PanicSites.fileOf site.label, Gen.PanicSites.lineOf site.label with
+  | some f, some l => s!"{Bytes.toString f}:{l}"
+  | _, _ => s!"?{Bytes.toString site.label}"
+
+def outStr (vs : List (Value Float)) : String :=
+  if vs.isEmpty then "none" else ",".intercalate (vs.map (fun v => hex v.display))
+
+def answerRun (head ast : String) : String :=
+  match words head with
+  | _ :: _src :: pol :: plan :: more =>
+    -- `lookup=lexical` (testing aid): run the reference lookup mode instead of the code's
+    let mode : LookupMode := if more.contains "lookup=lexical" then .lexical else .dynamic
+    match parsePlan ((plan.drop 5).toString), AstIO.readBlock ast with
+    | some pl, some blk =>
+      let cfg : RunCfg :=
+        { lookup := mode, plan := pl, panics := true,
+          policy := { allow := pol == "pol=a", caps := defaultCaps },
+          runProc := runProcStub, std := stdOps, input := [] }
+      match (run cfg fuel blk : Outcome Float) with
+      | .ok out => s!"out={outStr out} end=ok"
+      | .rt k sp out => s!"out={outStr out} end=rt:{k.name}@{sp.lo}:{sp.hi}"
+      | .panic site out => s!"out={outStr out} end=panic@{siteLoc site}"
+      | .fuelOut => "out=none end=fuel"
+    | _, _ => "bad-request"
+  | _ => "bad-request"
+
+def answer (line : String) : String :=
+  match line.splitOn " ast=" with
+  | [head, ast] => if head.startsWith "run " then answerRun head ast else "bad-request"
+  | _ =>
+    match words line with
+    | ["rej", _] => "rejected"
+    | ["fmt", b] =>
+      match parseHexNat b with
+      | some bits => hex (fmtBits bits)
+      | none => "bad-request"
+    | ["parse", h] =>
+      match unhex h with
+      | some s =>
+        match Strs.parseF64 s with
+        | some (some b) => hex16 b
+        | some none => "nan"
+        | none => "err"
+      | none => "bad-request"
+    | ["fmod", a, b] =>
+      match parseHexNat a, parseHexNat b with
+      | some x, some y => (match fmodBits x y with | some r => bitsAns r | none => "nan")
+      | _, _ => "bad-request"
+    | ["cast", a] =>
+      match parseHexNat a with
+      | some x =>
+        let f := ofBitsNat x
+        s!"{(NumOps.toIsize f : Int)} {(NumOps.toUsize f : Nat)} {(NumOps.toU32 f : Nat)}"
+      | none => "bad-request"
+    | ["un", op, a] =>
+      match parseHexNat a with
+      | some x =>
+        let f := ofBitsNat x
+        let r : Option Float := match op with
+          | "floor" => some f.floor | "ceil" => some f.ceil | "round" => some f.round
+          | "sqrt" => some f.sqrt | "abs" => some f.abs | _ => none
+        match r with
+        | some y => bitsAns (bitsOf y)
+        | none => "bad-request"
+      | none => "bad-request"
+    | _ => "bad-request"
 
 def main : IO Unit := do
-  IO.eprintln "family run: not built yet"
+  loop (← IO.getStdin) (← IO.getStdout) () (fun _ line => ((), answer line))
 
 end NaijaVerif.Driver.RunD
